@@ -471,6 +471,185 @@ def sibling_defaults(run, rule, mi):
     return n
 
 
+# ---------------------------------------------------------------------------------------------------------------- sibling guards
+def _guard_atoms(test, local_names):
+    """(structure, atoms, skeleton atoms): the test as a boolean function over canonical atoms.  Comparisons are reduced to == and < (a != b is
+    not (a == b), a >= b is not (a < b), a > b is b < a, a <= b is not (b < a)); local variable names are abstracted to '_', attribute / function /
+    class names and constants are kept.  The skeleton abstracts constants and operators as well and sorts call arguments."""
+    atoms = []
+
+    def abstract(e, consts=True):
+        class A(ast.NodeTransformer):
+            def visit_Name(self, n):
+                if n.id in local_names:
+                    return ast.copy_location(ast.Name(id='_', ctx=ast.Load()), n)
+                return n
+
+            def visit_Constant(self, n):
+                if not consts and isinstance(n.value, (int, float)) and not isinstance(n.value, bool):
+                    return ast.copy_location(ast.Name(id='#', ctx=ast.Load()), n)
+                if isinstance(n.value, str):
+                    return ast.copy_location(ast.Constant(value='S'), n)
+                return n
+        import copy as _copy
+        return A().visit(_copy.deepcopy(e))
+
+    def atom(e):
+        t = norm(abstract(e))
+        if t not in atoms:
+            atoms.append(t)
+        return 'a%d' % atoms.index(t)
+
+    def go(e):
+        if isinstance(e, ast.UnaryOp) and isinstance(e.op, ast.Not):
+            return ('not', go(e.operand))
+        if isinstance(e, ast.BoolOp):
+            return ('and' if isinstance(e.op, ast.And) else 'or',) + tuple(go(v) for v in e.values)
+        if isinstance(e, ast.Compare) and len(e.ops) == 1:
+            l, r, op = e.left, e.comparators[0], type(e.ops[0])
+            mk = lambda a, o, b: ast.Compare(left=a, ops=[o()], comparators=[b])
+            if op is ast.NotEq:
+                return ('not', atom(mk(l, ast.Eq, r)))
+            if op is ast.GtE:
+                return ('not', atom(mk(l, ast.Lt, r)))
+            if op is ast.Gt:
+                return atom(mk(r, ast.Lt, l))
+            if op is ast.LtE:
+                return ('not', atom(mk(r, ast.Lt, l)))
+            if op is ast.IsNot:
+                return ('not', atom(mk(l, ast.Is, r)))
+            if op is ast.NotIn:
+                return ('not', atom(mk(l, ast.In, r)))
+            return atom(e)
+        return atom(e)
+    struct = go(test)
+
+    def evaluate(s_, val):
+        if isinstance(s_, str):
+            return val[s_]
+        if s_[0] == 'not':
+            return not evaluate(s_[1], val)
+        if s_[0] == 'and':
+            return all(evaluate(x, val) for x in s_[1:])
+        return any(evaluate(x, val) for x in s_[1:])
+    import itertools as _it
+    names = ['a%d' % k for k in range(len(atoms))]
+    if len(names) > 5:
+        return None
+    order = sorted(range(len(atoms)), key=lambda k: atoms[k])
+    table = []
+    for vals in _it.product((False, True), repeat=len(names)):
+        val = {names[order[k]]: vals[k] for k in range(len(names))}
+        table.append('1' if evaluate(struct, val) else '0')
+    sig = ''.join(table)
+    sk = []
+    for e_txt in atoms:
+        try:
+            node = ast.parse(e_txt, mode='eval').body
+        except SyntaxError:
+            sk.append(e_txt)
+            continue
+
+        class Sk(ast.NodeTransformer):
+            def visit_Constant(self, n):
+                if isinstance(n.value, (int, float)) and not isinstance(n.value, bool):
+                    return ast.Name(id='K', ctx=ast.Load())
+                return n
+
+            def visit_Call(self, n):
+                self.generic_visit(n)
+                n.args = sorted(n.args, key=lambda a: norm(a))
+                return n
+
+            def visit_Compare(self, n):
+                self.generic_visit(n)
+                sides = sorted([norm(n.left)] + [norm(c) for c in n.comparators])
+                return ast.Name(id='CMP(%s)' % ','.join(sides), ctx=ast.Load())
+
+            def visit_BinOp(self, n):
+                self.generic_visit(n)
+                return ast.Name(id='OP(%s)' % ','.join(sorted([norm(n.left), norm(n.right)])), ctx=ast.Load())
+        sk.append(norm(Sk().visit(node)))
+    return sig, tuple(sorted(atoms)), tuple(sorted(sk))
+
+
+# minority guards confirmed by reading (one line of reason each): (module, function, guard) -> reason
+GUARD_EXCEPTIONS = {
+    ('cherab.core.math.interpolators.interpolators2d', '_Interpolate2DBase.__init__', 'f.ndim != 2'): 'the data table of a 2D interpolator is two-dimensional (the axes are 1D)',
+    ('cherab.core.math.interpolators.interpolators3d', '_Interpolate3DBase.__init__', 'f.ndim != 3'): 'the data table of a 3D interpolator is three-dimensional (the axes are 1D)',
+    ('cherab.core.math.transform.periodic', 'PeriodicTransform1D.__init__', 'period <= 0'): 'a 1D periodic transform needs a positive period; the 2D / 3D ones accept 0 for a non-periodic axis',
+    ('cherab.core.math.transform.periodic', 'VectorPeriodicTransform1D.__init__', 'period <= 0'): 'as PeriodicTransform1D',
+}
+
+
+def sibling_guards(run, rule, modules):
+    """Cross-check of sibling guards (Engler et al., 'bugs as deviant behaviour'): the functions of one area repeat the same guard clauses --
+    'if not isinstance(x, Element): raise TypeError', 'if not valid_charge(e, z): raise ValueError', 'if a.ndim != 1: raise', 'p = p or
+    DEFAULT'.  Guards are compared as boolean functions of canonical atoms (so 'not a == b' and 'a != b' are one guard); where at least
+    four siblings agree and one guard with the same skeleton (same atoms up to constants, operators and argument order) computes a
+    *different* truth function, that one is reported: it rejects what the others accept, or the reverse."""
+    groups = {}
+    for mi in modules:
+        fns = [(n, f) for n, f in dict.items(mi.functions)] + \
+              [('%s.%s' % (cn, m.name), m) for cn, c in mi.classes.items() for m in c.body if isinstance(m, ast.FunctionDef)]
+        for fname, f in fns:
+            local_names = {a.arg for a in f.args.posonlyargs + f.args.args + f.args.kwonlyargs} | \
+                          {t.id for st in ast.walk(f) for t in ast.walk(st) if isinstance(t, ast.Name) and isinstance(t.ctx, ast.Store)}
+            for st in ast.walk(f):
+                body_kind = None
+                test = None
+                if isinstance(st, ast.If) and len(st.body) == 1 and not st.orelse:
+                    b = st.body[0]
+                    if isinstance(b, ast.Raise) and b.exc is not None:
+                        body_kind = 'raise ' + (dotted(b.exc.func if isinstance(b.exc, ast.Call) else b.exc) or '?')
+                    elif isinstance(b, ast.Expr) and isinstance(b.value, ast.Call):
+                        body_kind = 'call ' + (dotted(b.value.func) or '?')
+                    test = st.test
+                elif isinstance(st, ast.Assign) and len(st.targets) == 1 and isinstance(st.targets[0], ast.Name) and isinstance(st.value, ast.BoolOp) \
+                        and len(st.value.values) == 2 and isinstance(st.value.values[0], ast.Name) and st.value.values[0].id == st.targets[0].id:
+                    # p = p or DEFAULT
+                    body_kind = 'default ' + norm(st.value.values[1])
+                    test = ast.BoolOp(op=st.value.op, values=[ast.Name(id='_', ctx=ast.Load()), ast.Name(id='DEFAULT', ctx=ast.Load())])
+                if body_kind is None:
+                    continue
+                try:
+                    r = _guard_atoms(test, local_names)
+                except Exception:
+                    r = None
+                if r is None:
+                    continue
+                sig, atoms, sk = r
+                groups.setdefault((sk, body_kind), {}).setdefault((sig, atoms), []).append((mi, fname, st))
+    n = 0
+    for (sk, kind), variants in sorted(groups.items(), key=lambda kv: str(kv[0])):
+        total = sum(len(v) for v in variants.values())
+        if total < 5 or len(variants) < 2:
+            if total >= 5:
+                n += 1
+                run.subject(rule)
+                run.ok(rule, 'guard %s -> %s' % (' ; '.join(sk)[:60], kind), '%d siblings agree' % total, sample=False)
+            continue
+        major = max(variants.items(), key=lambda kv: len(kv[1]))
+        if len(major[1]) < 4 or len(major[1]) < 0.75 * total:
+            continue
+        for key, sites in variants.items():
+            if key == major[0] or len(sites) > 2:
+                continue
+            for mi, fname, st in sites:
+                n += 1
+                run.subject(rule)
+                gtxt = norm(st.test if isinstance(st, ast.If) else st.value)
+                if (mi.name, fname, gtxt) in GUARD_EXCEPTIONS:
+                    run.ok(rule, '%s guard %s' % (fname, gtxt), 'confirmed special case: ' + GUARD_EXCEPTIONS[(mi.name, fname, gtxt)], sample=False)
+                    continue
+                run.fail(rule, '%s|%s|deviant-guard:%s' % (mi.name, fname, ' ; '.join(key[1])[:60]), mi.relpath, st.lineno,
+                         "%s guards with '%s' (%s) where %d sibling functions of this area guard with '%s': the same condition is tested with "
+                         "the opposite sense, another bound or swapped operands, so this function rejects what its siblings accept (or the reverse)"
+                         % (fname, norm(st.test if isinstance(st, ast.If) else st.value)[:70], kind, len(major[1]),
+                            norm(major[1][0][2].test if isinstance(major[1][0][2], ast.If) else major[1][0][2].value)[:70]))
+    return n
+
+
 def last_call_memos(run, rule, mi, name, fn):
     """'global _last, _value; if arg is not _last: _value = f(arg); _last = arg' -- a one-entry memo keyed by the *identity* of an array:
     the array can be edited in place between two calls, the identity stays, the memoised value is stale."""
@@ -563,6 +742,14 @@ def check_caches(run, modules, rule, functions=None, prog=None, zero_is_a_value=
                                  "%s declares '%s' as a C float: every value of the package is a double, so a quantity held in this variable is "
                                  "rounded to 24 bits and overflows to infinity above 3.4e38 (sums of squares of photon rates do), which changes "
                                  "results and convergence tests for inputs the double-precision code handles" % (name, nm_))
+            from .rules._purity import never_bound_names
+            for nb_ in never_bound_names(fn, mi, prog):
+                nstores += 1
+                run.subject(rule)
+                run.fail(rule, '%s|%s|unbound:%s' % (mi.name, name, nb_.id), mi.relpath, nb_.lineno,
+                         "%s reads '%s', which is bound nowhere: it is not a parameter, is assigned on no path of the function and is not a name "
+                         "of the module (or its declaration file) or a builtin -- the call raises NameError / UnboundLocalError instead of "
+                         "computing its result" % (name, nb_.id))
             from .rules._purity import falsy_numeric_default
             # only where 0 is a meaningful argument (bounds, coordinates of the function wrappers); elsewhere 'count or default' treats 0 as 'unset' on purpose
             for n_, x_ in (falsy_numeric_default(fn) if zero_is_a_value else ()):
@@ -633,6 +820,11 @@ def check_caches(run, modules, rule, functions=None, prog=None, zero_is_a_value=
                     edges = _value_edges(fn)
                 nstores += 1
                 _judge(run, rule, mi, name, fn, t, st.value, st, cont_txt, kind, edges, params, memo)
+    if functions is None:
+        try:
+            nstores += sibling_guards(run, rule, list(modules))
+        except RecursionError:
+            pass
     if prog is not None:
         # values memoised in a field / derived once in the constructor follow the fields they were computed from (shared memo rules)
         from .effects import Effects
